@@ -96,8 +96,14 @@ def operators(ctx, L):
     f = one(cx, 'operator<<', lambda g: 'indent_t' in g.params[1][1])
     o, i = f.params[0][0], f.params[1][0]
     lits = [ast.literal_eval(s.j.get('value')) for s in f.body.find('StringLiteral')]
-    L.check(lits == ['  '] and nows(f.body.text) == '{while(%s.level){%s<<"";--%s.level;}return%s;}' % (i, o, i, o),
-            'C18.format-pieces', 'operator<<(indent_t)', f.site(), 'indentation is two spaces per level', f.body.text)
+    loop_form = lits == ['  '] and nows(f.body.text) == '{while(%s.level){%s<<"";--%s.level;}return%s;}' % (i, o, i, o)
+    # padding an empty string to 2*level columns is the same text as long as the stream's fill character is a space:
+    # print() renders into a fresh stringstream and F13 guarantees that nothing leaves another fill behind
+    f13_clean = not any(ob.status == 'bad' and ob.rule == 'F13.stream-state-restored' for ob in L.obligations)
+    width_form = lits == [''] and nows(f.body.text) in ('{%s.width(2*%s.level);return%s<<"";}' % (o, i, o),
+                                                         '{%s.width(%s.level*2);return%s<<"";}' % (o, i, o)) and f13_clean
+    L.check(loop_form or width_form, 'C18.format-pieces', 'operator<<(indent_t)', f.site(), 'indentation is two spaces per level'
+            + ('' if f13_clean else ' (width-padding relies on the fill character, which a sticky manipulator leaves changed)'), f.body.text)
 
 
 def printers(ctx, L):
